@@ -6,6 +6,7 @@ import (
 	"errors"
 	"io"
 	"net"
+	"strings"
 	"sync"
 	"time"
 
@@ -328,12 +329,9 @@ func (c *Client) Send(packet stanza.Packet) error {
 
 	// Store stanza as non-acked as part of stream management
 	// See https://xmpp.org/extensions/xep-0198.html#scenarios
-	if c.config.StreamManagementEnable {
-		_, isAnswer := packet.(stanza.SMAnswer)
-		if _, ok := packet.(stanza.SMRequest); !ok && !isAnswer {
-			toStore := stanza.UnAckedStz{Stz: string(data)}
-			c.holdUnacked(&toStore)
-		}
+	if c.config.StreamManagementEnable && isStanzaName(packet.Name()) {
+		toStore := stanza.UnAckedStz{Stz: string(data)}
+		c.holdUnacked(&toStore)
 	}
 
 	return c.sendWithWriter(c.transport, data)
@@ -375,11 +373,32 @@ func (c *Client) SendRaw(packet string) error {
 
 	// Store stanza as non-acked as part of stream management
 	// See https://xmpp.org/extensions/xep-0198.html#scenarios
-	if c.config.StreamManagementEnable {
+	if c.config.StreamManagementEnable && isStanzaName(firstElementName(packet)) {
 		toStore := stanza.UnAckedStz{Stz: packet}
 		c.holdUnacked(&toStore)
 	}
 	return c.sendWithWriter(c.transport, []byte(packet))
+}
+
+// isStanzaName tells whether an element name is the one of a stanza. Stanzas, and only stanzas, are counted
+// and acknowledged by the server (XEP-0198): acknowledgement requests, answers and other stream level
+// elements are not held, whether they are passed by value, by pointer or as raw XML.
+func isStanzaName(name string) bool {
+	return name == "message" || name == "presence" || name == "iq"
+}
+
+// firstElementName returns the name of the element that raw XML starts with ("" if it does not start
+// with an element).
+func firstElementName(packet string) string {
+	s := strings.TrimLeft(packet, " \t\r\n")
+	if !strings.HasPrefix(s, "<") {
+		return ""
+	}
+	s = s[1:]
+	if end := strings.IndexAny(s, " \t\r\n/>"); end >= 0 {
+		s = s[:end]
+	}
+	return s
 }
 
 // holdUnacked queues a sent stanza until the server acknowledges it. Stanzas are sent from any goroutine,
